@@ -7,6 +7,11 @@ CONSTANTS
   FixErr = TRUE
   FixNoPw = TRUE
   FixEnc = TRUE
+  Reuse = FALSE
+  Doms = {"same", "tbl", "realm", "both"}
+  Pres2 = {31, 15}
+  Extras2 = {"none"}
+  QopQfs2 <- QopQfsTwo
 INVARIANT TypeOK
 INVARIANT Conforms
 INVARIANT AuthIffVerifies
